@@ -284,9 +284,10 @@ pub fn run_zoo(i: &Input) -> Result<(), String> {
     Ok(())
 }
 
-pub fn search_zoo(budget: u64, try_one: &mut dyn FnMut(Input) -> bool) {
-    for seed in 0..budget.min(4000) {
-        if try_one(Input::new("zoo_types").v(seed)) {
+pub fn search_zoo(outer: u64, budget: u64, try_one: &mut dyn FnMut(Input) -> bool) {
+    for seed in 0..(if budget > 100_000 { 40_000 } else { budget.min(4000) }) {
+        // seed 1 (the default of the quick tier) enumerates 0..n; other seeds shift the batch numbers
+        if try_one(Input::new("zoo_types").v((outer - 1).wrapping_mul(1_000_003) + seed)) {
             return;
         }
     }
